@@ -13,7 +13,9 @@ open Sio.Simple
        raises SocketIOError) · "T" timeout fires · "Kc" / "Kd" / "Kf" connection-handler thread
        (connect / disconnect / __disconnect_final) · "Sr" start receive() · "St" start
        receive(timeout) · "Se" start emit()/call()
-  out: {"trace": [[status, pc, nlog, producerMid, handlerMid], …]   one entry per token,
+  out: {"trace": [[status, pc, nlog, producerMid, handlerMid, held], …]   one entry per token
+                 (held = receive() parked on connected_event, not notified, while a signalled
+                  arrival is unreturned: the region of the known finding),
         "log":   [{"o": outcome, "pc": …, "buf": […], "arrived": n, "returned": n, "signalled": n,
                    "seen": n, "ended": b, "cev": b, "conn": b, "woken": b}, …],
         "returned": […], "arrived": n, "buf": […]}
@@ -58,7 +60,8 @@ def entryJson (e : Outcome × View) : Json :=
 
 def traceEntry (s : State) : Json :=
   Json.arr #[Json.str (statusOf s), Json.str (pcName s.cpc), Json.num s.log.length,
-             Json.bool (s.ppc != .idle), Json.bool (s.kpc != .idle)]
+             Json.bool (s.ppc != .idle), Json.bool (s.kpc != .idle),
+             Json.bool (s.cpc = .r1w && !s.woken && decide (s.returned.length < s.signalled))]
 
 def handle (_ : Unit) (j : Json) : Except String (Unit × Json) := do
   let variant ← (← j.getObjVal? "variant").getStr?
